@@ -225,6 +225,7 @@ func (ra *RouteAuthenticator) Authenticate(req *http.Request, route *MatchedRout
 	}
 	// iterate in proper order
 	var lastResult interface{}
+	var missingPrincipal bool
 	for _, scheme := range ra.Schemes {
 		if authenticator, ok := ra.Authenticator[scheme]; ok {
 			applies, princ, err := authenticator.Authenticate(&security.ScopedAuthRequest{
@@ -238,10 +239,17 @@ func (ra *RouteAuthenticator) Authenticate(req *http.Request, route *MatchedRout
 				route.Authenticator = ra
 				return true, nil, err
 			}
+			if princ == nil {
+				missingPrincipal = true
+			}
 			lastResult = princ
 		}
 	}
 	route.Authenticator = ra
+	if missingPrincipal {
+		// every scheme of the requirement must yield a principal, whatever the order of evaluation
+		return true, nil, nil
+	}
 	return true, lastResult, nil
 }
 
